@@ -446,7 +446,31 @@ func (g *gen) batchableCmd() []string {
 	}
 }
 
+// multi-part writes that FAIL PART-WAY, after the handler has staged something in the store's write
+// batch (all of them pass the checks made before a proposal): what they staged must never surface
+func (g *gen) partialFail() []string {
+	k := g.key()
+	long := strings.Repeat("M", 10241)
+	switch g.r.Intn(6) {
+	case 0:
+		return []string{"mset", k, g.val(), "notable", g.val()}
+	case 1:
+		return []string{"plset", k, g.val(), "notable", g.val()}
+	case 2:
+		return []string{"hmset", k, g.mem(), g.val(), long, g.val()}
+	case 3:
+		return []string{"zadd", k, "1", g.mem(), "2", long}
+	case 4:
+		return []string{"sadd", k, g.mem(), long}
+	default:
+		return []string{"mset", k, g.val(), "t:" + strings.Repeat("K", 10240), g.val()}
+	}
+}
+
 func (g *gen) writeCmd() []string {
+	if g.bad > 0 && g.r.Chance(g.bad) {
+		return g.partialFail()
+	}
 	k := g.key()
 	switch g.fams[g.r.Intn(len(g.fams))] {
 	case 'k':
@@ -606,7 +630,9 @@ func (l *Log) universe() [][]byte {
 	seen := map[string]bool{}
 	var out [][]byte
 	add := func(b []byte) {
-		if len(b) > 200 { // the oversized-key probe never stores anything
+		if len(b) > 200 || !strings.Contains(string(b), ":") {
+			// the oversized-key probe and keys without a table name never store anything (and reading
+			// a key without a table name is answered differently by the engines: not this property's subject)
 			return
 		}
 		if !seen[string(b)] {
@@ -624,7 +650,7 @@ func (l *Log) universe() [][]byte {
 			for _, a := range r.Args[1:] {
 				add(a)
 			}
-		case "mset":
+		case "mset", "plset":
 			for i := 1; i < len(r.Args); i += 2 {
 				add(r.Args[i])
 			}
